@@ -1,5 +1,6 @@
 import Zstd.Model.FrameDecoder
-import Zstd.Proofs.FrameDecoderFollows
+import Zstd.Proofs.FrameDecoderStandIn
+import Zstd.Proofs.FrameFaithful
 import Zstd.Proofs.BlockRefines
 import Zstd.Proofs.BlkLitFull
 import Zstd.Props.C13
@@ -20,7 +21,7 @@ open Zstd Zstd.Model
 consuming the same number of bytes, with the declared metadata, however it is driven (C06) -/
 def C01_full : Prop :=
   ∀ (f : List Nat) (r : Spec.FrameResult), Spec.decodeFrame f = some r →
-    ∃ d' out, (({} : Decoder).decodeAll f r.content.length) = (d', .ok out) ∧ out.toList = r.content
+    ∃ d' out, (({} : DecA).decodeAll f r.content.length) = (d', .ok out) ∧ out.toList = r.content
 
 /-- block headers: on every 3-byte pattern the model (table and guard from the source) agrees with
 the RFC bit-fields, and accepts exactly the legal ones (type ≠ reserved, size ≤ 128 KiB) -/
@@ -173,9 +174,10 @@ theorem frameHeader_refines (bytes : List Nat) (hb : ∀ x ∈ bytes, x < 256) (
 block by block — raw, RLE and compressed blocks, any number — ending in the code's last-block handling
 (`finishFrame`: checksum read when flagged) with the Spec's output in the buffer and exactly the Spec's
 byte count consumed -/
-theorem decodeBlocks_refines (fuelS a c fuel : Nat) (bytes : List Nat) (hb : ∀ x ∈ bytes, x < 256)
-    (e : Spec.Entropy) (st : FState) (out' : Array Nat) (consumed consumed' : Nat)
-    (hf : bytes.length < fuel) (hent : st.entropy = e) (htot : st.buf.totalOut ≤ st.buf.content.size)
+theorem decodeBlocks_refines {σ : Type} [BlockDec σ] [BlockContract σ] [RefinesSpec σ]
+    (fuelS a c fuel : Nat) (bytes : List Nat) (hb : ∀ x ∈ bytes, x < 256)
+    (e : Spec.Entropy) (st : FState σ) (out' : Array Nat) (consumed consumed' : Nat)
+    (hf : bytes.length < fuel) (hent : RefinesSpec.coupled st.entropy e) (htot : st.buf.totalOut ≤ st.buf.content.size)
     (hs : Spec.decodeBlocks st.buf.window st.buf.dict fuelS bytes e st.buf.content consumed = some (out', consumed')) :
     ∃ st' n, consumed' = consumed + n ∧ n ≤ bytes.length ∧
       decodeBlocksLoop .all a c fuel st bytes = finishFrame st' (bytes.drop n) ∧
@@ -184,8 +186,10 @@ theorem decodeBlocks_refines (fuelS a c fuel : Nat) (bytes : List Nat) (hb : ∀
     decodeBlocksLoop_refines fuelS a c fuel bytes hb e st out' consumed consumed' hf ⟨rfl, hent, htot⟩ hs
   exact ⟨st', n, h1, h2, h3, h4, h5⟩
 
-/-- `decodeFrame_refines_partial` (C01 at the frame level, model with the entropy stand-ins): every frame
-the Spec accepts — with the decoder's registered dictionaries, window within the decoder's limit — is
+/-- `decodeFrame_refines_partial` (C01 at the frame level, for EVERY block decoder with `BlockContract` and
+`RefinesSpec` — the stand-in satisfies both, the faithful decoder modulo J's obligations): every frame
+the Spec accepts — with dictionaries coupled to the decoder's (`DictsCoupled`; for the stand-in
+`dictsCoupled_standIn`), window within the decoder's limit — is
 decoded by `reset` + `decode_blocks(All)`: `Ok(true)`, the buffer holds exactly the Spec's content,
 `is_finished()`, `bytes_read_from_source()` = the Spec's frame length, the source left is the input
 minus exactly that, the stored checksum is the frame's (which the Spec has verified to be
@@ -194,28 +198,31 @@ Missing for `C01_full`: (a) the real entropy decoders in place of the stand-ins 
 (b) `decode_all` instead of `reset + decode_blocks(All)` — needs `SchedOk` from Spec validity (C06);
 (c) `C01_full` as worded is false for inputs with trailing bytes after the frame (`Spec.decodeFrame`
 ignores them, `decode_all` rejects them): it needs the hypothesis `r.consumed = f.length`. -/
-theorem decodeFrame_refines_partial (d : Decoder) (f : List Nat) (hb : ∀ x ∈ f, x < 256) (r : Spec.FrameResult)
-    (hs : Spec.decodeFrame f (d.dicts.map Dict.toSpec) = some r) (hlim : r.header.window ≤ d.maxWindow) :
+theorem decodeFrame_refines_partial {σ : Type} [BlockDec σ] [BlockContract σ] [RefinesSpec σ]
+    (d : Decoder σ) (sdicts : List Spec.Dict) (hdc : DictsCoupled d.dicts sdicts)
+    (f : List Nat) (hb : ∀ x ∈ f, x < 256) (r : Spec.FrameResult)
+    (hs : Spec.decodeFrame f sdicts = some r) (hlim : r.header.window ≤ d.maxWindow) :
     ∃ d0 d1 rest st1, d.reset f = (d0, .ok rest) ∧
       d0.decodeBlocks rest .all = (d1, .ok (f.drop r.consumed, true)) ∧ d1.state = some st1 ∧
       st1.buf.content.toList = r.content ∧ d1.isFinished = true ∧ st1.bytesRead = r.consumed ∧
       st1.checksum = r.checksum ∧ st1.buf.hashed = #[] ∧ r.consumed ≤ f.length :=
-  decodeFrame_refines d f hb r hs hlim
+  decodeFrame_refines d sdicts hdc f hb r hs hlim
 
 /-- `decoder_reproduces_content_any_schedule_partial`: C01 + C06 composed — for every frame the Spec
 accepts and every documented driver program (any decode strategies / budgets, any interleaving of
 collect / read / collect_to_writer with any sink), the bytes delivered are a prefix of the original
 content, and all of it once the frame is finished and drained.  Partial only in that the executable
 model uses the Spec's entropy decoders as stand-ins (see `decodeFrame_refines_partial`). -/
-theorem decoder_reproduces_content_any_schedule_partial (d : Decoder) (f : List Nat) (hb : ∀ x ∈ f, x < 256)
-    (r : Spec.FrameResult) (hs : Spec.decodeFrame f (d.dicts.map Dict.toSpec) = some r)
+theorem decoder_reproduces_content_any_schedule_partial {σ : Type} [BlockDec σ] [BlockContract σ] [RefinesSpec σ]
+    (d : Decoder σ) (sdicts : List Spec.Dict) (hdc : DictsCoupled d.dicts sdicts) (f : List Nat) (hb : ∀ x ∈ f, x < 256)
+    (r : Spec.FrameResult) (hs : Spec.decodeFrame f sdicts = some r)
     (hlim : r.header.window ≤ d.maxWindow) (ops : List SOp) :
     ∃ d0 rest, d.reset f = (d0, .ok rest) ∧ (DocOk d0 rest ops →
       (runSched d0 rest ops).2.2.2 = none ∧
       ∃ st tail, (runSched d0 rest ops).1.state = some st ∧
         r.content = ((runSched d0 rest ops).2.2.1 ++ st.buf.content ++ tail).toList ∧
         (st.finished = true → st.buf.content = #[] → (runSched d0 rest ops).2.2.1.toList = r.content)) := by
-  obtain ⟨d0, rest, hres, h⟩ := Model.valid_frame_any_schedule d f hb r hs hlim ops
+  obtain ⟨d0, rest, hres, h⟩ := Model.valid_frame_any_schedule d sdicts hdc f hb r hs hlim ops
   refine ⟨d0, rest, hres, fun hdoc => ?_⟩
   obtain ⟨h1, st, tail, hst, hh, hc, hfin⟩ := h hdoc
   refine ⟨h1, st, tail, hst, by rw [← hh]; exact hc, ?_⟩
@@ -230,7 +237,7 @@ example : (Spec.decodeFrame [0x28, 0xB5, 0x2F, 0xFD, 0x20, 3, 0x19, 0, 0, 97, 98
 /-- `C01_full` as worded does not hold: trailing bytes after a valid frame are ignored by
 `Spec.decodeFrame` but rejected by `decode_all` -/
 example : (Spec.decodeFrame [0x28, 0xB5, 0x2F, 0xFD, 0x20, 3, 0x19, 0, 0, 97, 98, 99, 0] []).map (·.content) = some [97, 98, 99] ∧
-    ((({} : Decoder).decodeAll [0x28, 0xB5, 0x2F, 0xFD, 0x20, 3, 0x19, 0, 0, 97, 98, 99, 0] 3).2.isOk) = false := by
+    ((({} : DecA).decodeAll [0x28, 0xB5, 0x2F, 0xFD, 0x20, 3, 0x19, 0, 0, 97, 98, 99, 0] 3).2.isOk) = false := by
   decide +kernel
 
 /-- non-vacuity of `executeSequences_refines`: literals "ab", then a match of length 4 at offset 2 -/
@@ -239,6 +246,7 @@ example : Spec.execSequences 1024 #[] [⟨2, 4, 5⟩] [97, 98, 99] ⟨1, 4, 8⟩
 
 /-- non-vacuity: a raw last block header of size 4 -/
 example : Model.parseBlockHeader 0x21 0 0 = .ok ⟨true, 0, 4, 4⟩ := by decide
+
 
 /-! ## block level: the faithful model `Blk.decompressBlock` refines `Spec.decodeCompressedBlock`
 
@@ -406,5 +414,36 @@ example : (Spec.decodeCompressedBlock 1024 #[]
       [34, 134, 18, 18, 144, 207, 1, 96, 131, 13, 54, 216, 34, 139, 12, 250, 255, 255, 224, 250, 131, 28, 135, 145, 225, 151, 132, 156, 76, 211, 51, 191, 120, 4, 216, 71, 98, 151, 236, 1, 238, 120, 200, 16, 180, 224, 142, 95, 220, 241, 99, 129, 23, 54, 110, 47, 72, 231, 142, 127, 60, 217, 97, 83, 242, 188, 50, 242, 69, 217, 11, 71, 194, 72, 119, 238, 24, 5, 0, 210, 131, 156, 58, 91, 48, 10, 243, 86, 13, 33, 9, 19, 10]
       {} #[]).isSome = true ∧ Zstd.Proofs.Blk.Coupled {} {} :=
   ⟨by decide +kernel, Zstd.Proofs.Blk.coupled_fresh⟩
+
+/-! ### instance B: the decoder the drivers run
+
+For `DecB` — the frame-level model over the FAITHFUL block decoder, which engine `dec` compares with
+the real code line by line on valid and malformed frames — the frame-level refinement follows from the
+block-level one (`blk_decompressBlock_refines` above) through `RefinesObligation` /
+`instRefinesSpecFaithful` (Proofs/FrameFaithful.lean).  No stand-in and no hypothesis is left: the
+model in the theorem is the model the engine runs. -/
+
+/-- **C01 for the faithful model, with dictionaries**: every frame the Spec accepts — with any
+dictionaries the decoder's registered ones are coupled with, window within the decoder's limit — is
+decoded by `reset` + `decode_blocks(All)`: `Ok(true)`, the buffer holds exactly the Spec's content,
+`is_finished()`, consumed = the frame's length, the stored checksum is the frame's -/
+theorem decodeFrame_refines_faithful_dicts (d : DecB) (sdicts : List Spec.Dict) (hdc : DictsCoupled d.dicts sdicts)
+    (f : List Nat) (hb : ∀ x ∈ f, x < 256) (r : Spec.FrameResult)
+    (hs : Spec.decodeFrame f sdicts = some r) (hlim : r.header.window ≤ d.maxWindow) :
+    ∃ d0 d1 rest st1, d.reset f = (d0, .ok rest) ∧
+      d0.decodeBlocks rest .all = (d1, .ok (f.drop r.consumed, true)) ∧ d1.state = some st1 ∧
+      st1.buf.content.toList = r.content ∧ d1.isFinished = true ∧ st1.bytesRead = r.consumed ∧
+      st1.checksum = r.checksum ∧ st1.buf.hashed = #[] ∧ r.consumed ≤ f.length :=
+  decodeFrame_refines_partial d sdicts hdc f hb r hs hlim
+
+/-- **C01 for the faithful model**, decoder without dictionaries -/
+theorem decodeFrame_refines_faithful (d : DecB) (hnd : d.dicts = [])
+    (f : List Nat) (hb : ∀ x ∈ f, x < 256) (r : Spec.FrameResult)
+    (hs : Spec.decodeFrame f [] = some r) (hlim : r.header.window ≤ d.maxWindow) :
+    ∃ d0 d1 rest st1, d.reset f = (d0, .ok rest) ∧
+      d0.decodeBlocks rest .all = (d1, .ok (f.drop r.consumed, true)) ∧ d1.state = some st1 ∧
+      st1.buf.content.toList = r.content ∧ d1.isFinished = true ∧ st1.bytesRead = r.consumed ∧
+      st1.checksum = r.checksum ∧ st1.buf.hashed = #[] ∧ r.consumed ≤ f.length :=
+  decodeFrame_refines_partial d [] (by rw [hnd]; exact .nil) f hb r hs hlim
 
 end Zstd.Props.C01
